@@ -322,7 +322,7 @@ P("C12", CELL, '        self.nodes["global_comp_index"] = np.arange(self.cumsum_
 B("C12", CELL, '        self.nodes["global_comp_index"] = np.arange(self.cumsum_ncomp[-1])', '        self.nodes["global_comp_index"] = np.arange(1, self.cumsum_ncomp[-1] + 1)', "R-C12-concat")
 # F5 (repaired): synaptic states are stored per type; recordings / clamps carry global edge rows
 B("C08", BASE, "                    inds = jnp.asarray(self._edge_inds_within_type())[inds]", "                    inds = inds", "R-C08-space")
-B("C08", IG, "        edge_inds_within_type[ind] if state in module.synapse_state_names else ind", "        ind", "R-C08-space")
+B("C08", IG, "        edge_inds_within_type[ind] if state in edge_state_names else ind", "        ind", "R-C08-space")
 B("C08", BASE, "                inds, self._edges_in_view if is_edge_state else self._nodes_in_view\n            )", "                inds, self._nodes_in_view\n            )", "R-C08-space")
 B("C08", BASE, '                ptr_recs["rec_index"].isin(self._edges_in_view),\n', '                ptr_recs["rec_index"].isin(self._comps_in_view),\n', "R-C08-space")
 # ---------------------------------------------------------------------------------------- session 3 rules
@@ -368,7 +368,12 @@ B("C10", BASE, "        self.base.to_jax()\n        pstate = params_to_pstate(tr
   "        pstate = params_to_pstate(trainable_params, self.base.indices_set_by_trainables)\n        all_params = self.base.get_all_parameters(pstate, voltage_solver=\"jaxley.stone\")\n        self.base.to_jax()", "R-C10-tojax")
 # key class decided on the base (C08/C11/C19)
 for _p in ("C08", "C11", "C19"):
-    B(_p, BASE, '            is_edge_state = ptr_recs["state"].isin(self.base.synapse_state_names)', '            is_edge_state = ptr_recs["state"].isin(self.synapse_state_names)', "R-%s-keyclass" % _p)
+    B(_p, BASE, '            is_edge_state = ptr_recs["state"].isin(self._edge_state_names())', '            is_edge_state = ptr_recs["state"].isin(self.synapse_state_names + self.synapse_current_names)', "R-%s-keyclass" % _p)
+    # F20 (repaired): synaptic currents are edge quantities too
+    B(_p, BASE, '            is_edge_state = ptr_recs["state"].isin(self._edge_state_names())', '            is_edge_state = ptr_recs["state"].isin(self.base.synapse_state_names)', "R-%s-keyclass" % _p)
+    B(_p, IG, "    edge_state_names = module._edge_state_names()", "    edge_state_names = module.synapse_state_names", "R-%s-keyclass" % _p)
+    B(_p, BASE, "                if key in self._edge_state_names():", "                if key in self.synapse_state_names:", "R-%s-keyclass" % _p)
+    P(_p, BASE, "        return self.base.synapse_state_names + self.base.synapse_current_names", "        names = list(self.base.synapse_state_names)\n        return names + self.base.synapse_current_names")
 # C19: synapse roles shared, de-duplication on terms
 B("C19", NW, '                params["radius"][post_inds],\n                params["length"][post_inds],', '                params["radius"][pre_inds],\n                params["length"][post_inds],', "R-C19-simulates")
 B("C19", BASE, "        has_duplicates = self.base.recordings.duplicated()", '        has_duplicates = self.base.recordings.duplicated(subset=["rec_index"])', "R-C19-pair")
